@@ -211,6 +211,8 @@ def r14_s(ctx):
     from . import c02
     for fn in (c02.r02_2, c02.r02_4, c02.r02_7, c02.r02_11, c02.r02_12):
         ctx.include(fn, 'R14.S')
+    from . import c10
+    ctx.include(c10.r10_1, 'R14.S')   # the checked walkers decode a member name before they compare it (no raw-byte shortcut past the validating key parser)
 
 
 RULES = [("R14.1", r14_1), ("R14.2", r14_2), ("R14.3", r14_3), ("R14.4", r14_4), ("R14.5", r14_5), ("R14.6", r14_6), ("R14.S", r14_s)]
